@@ -275,6 +275,8 @@ func (v *LV) Build(r *Rng) any {
 
 var words = []string{"a", "b", "c", "apple", "Banana", "cherry", "x y", "é", "日本", "10", "2", "", " pad ", "<b>T</b>", "a,b,c", "Z", "line1\nline2", "&amp;",
 	// one word per length 6..13: filters with numeric thresholds (truncate, slice, truncatewords) need inputs on both sides of every threshold
+	// date strings in several of the layouts the library recognises
+	"2017-07-09", "March 3, 2021", "2020-02-29 12:00", "02 Jan 2006", "Mon, 02 Jan 2006 15:04:05 -0700",
 	"abcdef", "seven 7", "eight ch", "123456789", "ten chars.", "hello world", "twelve chars", "one two three"}
 var keyWords = []string{"a", "b", "c", "d", "e", "f", "g", "h", "i", "j", "k", "l", "name", "title", "n"}
 
